@@ -145,6 +145,52 @@ def programs(tier, plan=None):
             yield (name, body, pro, epi)
 
 
+# a "syntax zoo": single-line statements of many syntactic forms (one or two per program, plain / in an if / in a while),
+# run differentially like every other program
+ZOO = {
+    'NEG': 'x = -%(k)d', 'FSTR': 'x = f"{x!r:>{%(k)d}}{f\'{x}\'}"', 'TSUB': 'x = ident[%(k)d, x]', 'STAR': 'x = [*L, x]',
+    'STARCALL': 'x = t(%(k)d, *L, **DD)', 'WALRUS': 'x = (w := x)', 'CHAIN': 'x = 1 < x < %(k)d',
+    'LAMDEF': 'x = (lambda a=x, *b, c=%(k)d, **e: (a, b, c))()', 'DSTAR': "x = {**DD, 'k': x}", 'SLICE': 'x = L[1:x:2]',
+    'LAPPEND': 'l.append(x)', 'LPOP': 'x = l.pop()', 'SUBSTATE': 'stacks[0] = stacks[0] + [%(k)d]', 'EQ': 'x = x == %(k)d',
+    'BUILTIN': 'x = len(range(abs(x)))', 'SETC': 'x = {j for j in L if j != x}', 'DICTC': 'x = {j: x for j in L}',
+    'GENEXP': 'x = list(j + 1 for j in L)', 'ANNASSIGN': 'y: int = x', 'POW': 'x = x if x else -x ** -2', 'STARASSIGN': 'x, *l = L',
+    'SWAPSUB': 'stacks[0], stacks[1] = stacks[1], stacks[0]', 'AUGSUB': 'stacks[0] += [x]', 'AUGATTR': 'zo.a += %(k)d', 'DELSUB': 'del l[0]',
+    'NESTCOMP': 'x = [[i * j for i in L] for j in L]', 'DICTGET': "x = DD.get('z', x)", 'METHCHAIN': "x = 'a-b'.upper().split('-')",
+    'FSTRCALL': 'x = f"{len(L)}:{x}"', 'LAMCALL': 'x = (lambda q: q + 1)(x)', 'SORTKEY': 'x = sorted(L, key=lambda v: -v)',
+    'BOOLCHAIN': 'x = x and L or DD', 'NOTIN': 'x = x not in L', 'ISNONE': 'x = x is None', 'NEGSUB': 'stacks[-1] = stacks[-1] + [%(k)d]',
+    'ZIPENUM': 'x = [a + b for a, (b, _) in zip(L, enumerate(L))]', 'TERN': 'x = t(%(k)d, 1) if x else t(%(k)d, 2)',
+    'MAPFILTER': 'x = list(map(abs, filter(None, L)))', 'ANYALL': 'x = any(L) and all(L)', 'INTFLOAT': "x = int('7') + float('1.5')",
+}
+ZOO_FEATS = [(), ('BUILTIN_FUNCTIONS',), ('EQUALITY_OPERATORS',), ('BUILTIN_FUNCTIONS', 'EQUALITY_OPERATORS')]
+
+
+def zoo_source(item):
+  _, combo, ctx, idx = item
+  k = [0]
+
+  def site():
+    k[0] += 1
+    return k[0]
+  stm = [ZOO[c] % {'k': site() + 1} for c in combo]
+  if ctx == 'plain':
+    body = stm
+  elif ctx == 'while':
+    body = ['while c(%d):' % site()] + ['    ' + s for s in stm]
+  else:
+    body = ['if c(%d):' % site()] + ['    ' + s for s in stm] + ['else:', '    x = t(%d, x)' % site()]
+  return ('def f(zo, d):\n    x = 2\n    l = [1]\n    stacks = [[], []]\n' + ''.join('    %s\n' % b for b in body) +
+          '    return (%d, x, l, stacks)\n' % (idx + 5000000))
+
+
+class _Ident(object):
+  def __getitem__(self, k):
+    return 7
+
+
+def zoo_globals():
+  return {'ident': _Ident(), 'L': [3, 1, 2], 'DD': {'z': 1}}
+
+
 def items(tier, seed):
   seen = set()
   i = 0
@@ -156,6 +202,15 @@ def items(tier, seed):
     # every program runs under the base configuration plus one rotating configuration
     yield (name, body, pro, epi, i)
     i += 1
+  import itertools
+  zk = sorted(ZOO)
+  for n in ((1, 2) if tier == 'quick' else (1, 2, 3)):
+    for combo in itertools.product(zk, repeat=n):
+      if n == 3 and len(set(combo)) < 3:
+        continue
+      for ctx in (('plain', 'if', 'while') if n == 1 else (('if', 'while')[i % 2],)):
+        yield ('zoo', combo, ctx, i)
+        i += 1
 
 
 def item_source(item):
@@ -174,9 +229,9 @@ def item_configs(item, tier):
   return [BASE] + [c for c in dict.fromkeys(alt) if c != BASE]
 
 
-def run_program(src, pid, configs, cap, dev, want_first_only=True):
+def run_program(src, pid, configs, cap, dev, want_first_only=True, extra_globals=None):
   """Returns (violations [(kind, msg, config, tape)], nexec, ncap, outcomes, truncated)."""
-  h = diff.Harness(src, pid, cap=cap)
+  h = diff.Harness(src, pid, cap=cap, extra_globals=extra_globals)
   viol = []
   outcomes = []
   nexec = ncap = 0
@@ -279,8 +334,46 @@ def lambda_liveness_class(name, rb, rp, re_, cfg):
   return run_reduced(name, _subst_kind(rb, 'LAM', 'DEFR'), rp, re_, cfg) is None
 
 
+def check_zoo(item):
+  tier = _S['tier']
+  _, combo, ctx, idx = item
+  src = zoo_source(item)
+  configs = [('to_graph', True, ZOO_FEATS[idx % 4]), ('convert', True, ZOO_FEATS[(idx // 4 + 1) % 4])]
+  configs = list(dict.fromkeys(configs))
+  viol, nexec, ncap, outcomes, trunc = run_program(src, idx, configs, CAP[tier], DEV[tier], extra_globals=zoo_globals())
+  out = []
+  seen = set()
+  for kind, msg, cfg, tp in viol:
+    if kind in seen:
+      continue
+    seen.add(kind)
+    if kind == 'exception-type' and cfg[0] == 'convert' and msg.endswith('converted raises StagingError'):
+      # implicit errors (IndexError, ZeroDivisionError ...) leaving a convert() wrapper are re-created from their message; which
+      # types survive that is the subject of C12 (error re-creation rules), not of this check
+      continue
+    # signature: the smallest sub-combination (single statement first) that still shows this kind of difference
+    where = '+'.join(combo)
+    for sub in [(c,) for c in combo]:
+      s2 = zoo_source(('zoo', sub, ctx, idx))
+      try:
+        v2 = run_program(s2, 'zred', [cfg], CAP[tier], DEV[tier], extra_globals=zoo_globals())[0]
+      except Exception:  # pylint:disable=broad-except
+        v2 = []
+      if any(x[0] == kind for x in v2):
+        where = sub[0]
+        break
+    out.append(util.V('%s|zoo|%s|%s|%s' % (kind, where, ctx, '+'.join(cfg[2])), '%s under %s on tape %s: %s\nprogram:\n%s' % (kind, cfg, list(tp), msg, src),
+                      item, source=src, config=cfg, tape=list(tp)))
+  return {'viol': out,
+          'n': {'evaluations': nexec * (1 + len(configs)), 'programs': 1, 'executions': nexec, 'conversions': len(configs),
+                'tape_cap_hits': ncap, 'exploration_truncated': int(trunc)},
+          'outcome': repr(outcomes), 'nontrivial': src, 'sample': {'menu': 'zoo', 'source': src}}
+
+
 def check(item):
   tier = _S['tier']
+  if item[0] == 'zoo':
+    return check_zoo(item)
   name, body, pro, epi, idx = item
   src = item_source(item)
   try:
